@@ -94,6 +94,25 @@ func raceScenarios() []raceScenario {
 				return o
 			},
 		}})
+	// first uses of a FRESH cipher object overlapping (lazily built per-object state)
+	for _, pat := range []string{"DDDDDDDD", "EEEEEEEE", "EDEDEDED"} {
+		pat := pat
+		sc := raceScenario{name: "fresh-sm4-block-first-use/" + pat, rounds: 1500, sameAsSolo: true,
+			setup: func() interface{} { b, _ := sm4.NewCipher(key16(2)); return b }}
+		for i := range pat {
+			i := i
+			sc.bodies = append(sc.bodies, func(st interface{}) interface{} {
+				o := make([]byte, 16)
+				if pat[i] == 'E' {
+					st.(cipher.Block).Encrypt(o, pu.Msg(10+i, 16))
+				} else {
+					st.(cipher.Block).Decrypt(o, pu.Msg(10+i, 16))
+				}
+				return o
+			})
+		}
+		rs = append(rs, sc)
+	}
 	msg := pu.Msg(5, 100)
 	r0, s0, _ := sm2.Sm2Sign(k, msg, nil, rand.Reader)
 	ct, _ := sm2.Encrypt(&k.PublicKey, msg, rand.Reader, sm2.C1C3C2)
